@@ -78,6 +78,7 @@ fn registry() -> Vec<PropDef> {
         prop!("C04", c04),
         prop!("C05", c05),
         prop!("C06", c06),
+        prop!("C07", c07),
         prop!("C08", c08),
         prop!("C09", c09),
         prop!("C10", c10),
@@ -88,6 +89,7 @@ fn registry() -> Vec<PropDef> {
         prop!("C13", c13),
         prop!("C16", c16),
         prop!("C17", c17),
+        prop!("C19", c19),
     ]
 }
 
